@@ -15,7 +15,6 @@ let content_bad d n = if n = 0 then [] else List.map (unit_good d) (range 0 (n -
 
 (* Store.AutoSaveIndex of the script being evaluated (field autosave=0|1, default 1) *)
 let autosv = ref true
-let bad_ids : int list ref = ref []
 
 (* bbad: manifest media type but bytes that do not decode.  Store.Push stores such content,
    fails to index it and removes it again = the push of the bytes followed by their plain
@@ -37,38 +36,36 @@ let parse_script (s : string) =
       | _ -> failwith "blob") (items (field "blobs")) in
   let find d = List.find (fun b -> b.bid = d) blobs in
   let num x = n_of_int (int_of_string x) in
-  (* one API call = a list of primitive operations of the model:
-       dgc:<d>:<t1>:...  Delete(d) with AutoGC that went on to delete t1, ... (plain deletes in a row)
-       gc:<s1>:...       GC that swept s1, ...: Forget(everything else), then their plain deletes
-       reopen            oci.New on the existing directory: no mutation *)
+  (* one API call (Model api); the model expands it to primitives (Model expand):
+       dgc:<d>:<t1>:...  Delete(d) with AutoGC that went on to delete t1, ...
+       gc:<s1>:...       GC that swept s1, ... (everything else is live)
+       reopen            oci.New on the existing directory *)
   let parse_call l =
     match l with
-    | ["push"; d] when (find (int_of_string d)).bbad ->
-      let b = find (int_of_string d) in
-      [Push (n_of_int b.bid, content_good b.bid b.bchunks, false); Delete (n_of_int b.bid)]
-    | ["tag"; d; _] when (find (int_of_string d)).bbad ->
-      (* no effect: encoded as the Untag of a reference that cannot exist (no micro-step, state unchanged) *)
-      [Untag (n_of_int (900000000 + int_of_string d))]
-    | ["push"; d] -> let b = find (int_of_string d) in [Push (n_of_int b.bid, content_good b.bid b.bchunks, b.bman)]
-    | ["pushbad"; d] -> let b = find (int_of_string d) in [Push (n_of_int b.bid, content_bad b.bid b.bchunks, b.bman)]
-    | ["tag"; d; r] -> [Tag (num d, num r)]
-    | ["untag"; r] -> [Untag (num r)]
-    | ["delete"; d] -> [Delete (num d)]
-    | ["saveindex"] -> [SaveIndex]
-    | "dgc" :: d :: ts -> Delete (num d) :: List.map (fun t -> Delete (num t)) ts
+    | ["push"; d] -> let b = find (int_of_string d) in APush (n_of_int b.bid, content_good b.bid b.bchunks)
+    | ["pushbad"; d] -> let b = find (int_of_string d) in APush (n_of_int b.bid, content_bad b.bid b.bchunks)
+    | ["tag"; d; r] -> ATag (num d, num r)
+    | ["untag"; r] -> AUntag (num r)
+    | ["delete"; d] -> ADelete (num d, [])
+    | ["saveindex"] -> ASaveIndex
+    | "dgc" :: d :: ts -> ADelete (num d, List.map num ts)
     | "gc" :: ss ->
       let swept = List.map int_of_string ss in
       let live = List.filter (fun b -> not (List.mem b.bid swept)) blobs in
-      Forget (List.map (fun b -> n_of_int b.bid) live) :: List.map (fun x -> Delete (n_of_int x)) swept
-    | ["reopen"] -> []
+      AGC (List.map (fun b -> n_of_int b.bid) live, List.map n_of_int swept)
+    | ["reopen"] -> AReopen
     | _ -> failwith "op" in
   let parse_hist x =
     match String.split_on_char ':' x with
-    | "crash" :: j :: rest -> (parse_call rest, Some (int_of_string j))
-    | l -> (parse_call l, None) in
+    | "crash" :: j :: rest -> ACrashed (parse_call rest, nat_of_int (int_of_string j))
+    | l -> ADone (parse_call l) in
   autosv := (field "autosave" <> "0");
-  bad_ids := List.map (fun b -> b.bid) (List.filter (fun b -> b.bbad) blobs);
   (blobs, List.map parse_hist (items (field "hist")), parse_call (String.split_on_char ':' (field "final")))
+
+(* media type and decodability of the script's blobs (third blob field: 0 = not a manifest,
+   1 = manifest, 2 = manifest media type but bytes that do not decode) *)
+let mt_of blobs (d : n) = List.exists (fun b -> b.bid = int_of_n d && (b.bman || b.bbad)) blobs
+let dec_of blobs (d : n) = not (List.exists (fun b -> b.bid = int_of_n d && b.bbad) blobs)
 
 (* digest-and-size verification: the name of the blob whose content this is, 0 for anything else *)
 let hfun blobs (c : n list) : n =
@@ -137,25 +134,17 @@ let show_fs blobs ctr (fs : fS) =
   let dtoks = List.concat (List.map (fun d -> if fs.dirs d then ["D:" ^ dname d] else []) [DBlobs; DAlg (n_of_int 0); DAlg (n_of_int 1); DAlg (n_of_int 2); DIngest]) in
   String.concat " " (List.sort compare (ftoks @ dtoks))
 
-let show_res r = match r with ROk -> "ok" | RExists -> "exists" | RNotFound -> "notfound" | RMismatch -> "mismatch"
+let show_res r =
+  match r with
+  | ROk -> "ok" | RExists -> "exists" | RNotFound -> "notfound" | RMismatch -> "mismatch" | RInvalid -> "invalid"
 
 let rec nat_len l = match l with [] -> 0 | _ :: r -> 1 + nat_len r
 
-(* a call cut after j micro-steps = (Crashed o j') of ONE of its primitives after the earlier
-   ones completed (Proofs/OciCrash.v seq_cut); returns the store reopened on what was left *)
-let rec crash_call h s ops j =
-  match ops with
-  | [] -> run_hop h shuffle inplace ufirst !autosv s (Crashed (SaveIndex, nat_of_int 0))
-  | o :: r ->
-    let n = nat_len (op_steps h shuffle inplace ufirst !autosv s o) in
-    if j <= n then run_hop h shuffle inplace ufirst !autosv s (Crashed (o, nat_of_int j))
-    else crash_call h (run_op h shuffle inplace ufirst !autosv s o) r (j - n)
-
 let run_call h s ops = List.fold_left (fun s o -> run_op h shuffle inplace ufirst !autosv s o) s ops
 
-let run_hist h hist =
-  List.fold_left (fun s (ops, c) ->
-      match c with None -> run_call h s ops | Some j -> crash_call h s ops j) init hist
+(* the history of completed and interrupted calls (Model runa: expand, run, crash_ops) *)
+let run_hist h blobs hist =
+  runa h shuffle inplace ufirst !autosv (mt_of blobs) (dec_of blobs) hist init
 
 (* the primitive the cut falls into: (state before it, it) *)
 let rec locate h s ops j =
@@ -186,13 +175,15 @@ let () =
     | id :: "S" :: sc :: _ ->
       let (blobs, hist, fin) = parse_script sc in
       let h = hfun blobs in
-      let s = run_hist h hist in
+      let s = run_hist h blobs hist in
+      let fin = expand h (mt_of blobs) (dec_of blobs) s fin in
       Printf.printf "%s\n" (String.trim (Printf.sprintf "%s STEPS %s" id
         (String.concat " " (List.map show_step (steps_seq h shuffle inplace ufirst !autosv s fin)))))
     | id :: "K" :: j :: sc :: _ ->
       let (blobs, hist, fin) = parse_script sc in
       let h = hfun blobs in
-      let s = run_hist h hist in
+      let s = run_hist h blobs hist in
+      let fin = expand h (mt_of blobs) (dec_of blobs) s fin in
       let j = int_of_string j in
       let fsk = crash_seq h shuffle inplace ufirst !autosv s fin (nat_of_int j) in
       let univ = List.map (fun b -> n_of_int b.bid) blobs in
@@ -200,29 +191,23 @@ let () =
         match locate h s fin j with
         | Some (sj, o) -> recoverableb h univ sj.sfs fsk (run_op h shuffle inplace ufirst !autosv sj o).sfs
         | None -> let s1 = run_call h s fin in recoverableb h univ s1.sfs fsk s1.sfs in
+      (* C10_api_reopen_loads: loadIndex succeeds on what was left, decoding included *)
+      let rec_ok = rec_ok && load_okb (mt_of blobs) (dec_of blobs) fsk in
       Printf.printf "%s STATE %s%s\n" id (show_fs blobs (int_of_nat s.sctr + nat_len fin + 1) fsk)
         (* with AutoSaveIndex off the predicate is known to fail (C10_crash_safe_refuted_autosave_off) *)
         (if rec_ok || not !autosv then "" else " MODEL-NOT-RECOVERABLE")
     | id :: "R" :: sc :: _ ->
       let (blobs, hist, fin) = parse_script sc in
       let h = hfun blobs in
-      let res s ops =
-        match ops with
-        | [] -> "ok"
-        | [Untag r] when int_of_n r >= 900000000 ->
-          (* Tag of an undecodable manifest: refused when the bytes are there, not found otherwise *)
-          if exists_file s.sfs (FBlob (n_of_int (int_of_n r - 900000000))) then "invalid" else "notfound"
-        | [Push (d, _, false); Delete d'] when d = d' ->
-          (* undecodable manifest: stored, not indexable, removed again *)
-          (match op_res h s (List.hd ops) with ROk -> "invalid" | r -> show_res r)
-        | o :: _ -> show_res (op_res h s o) in
+      let m = mt_of blobs and dc = dec_of blobs in
       let rec go s calls acc =
         match calls with
         | [] -> List.rev acc
-        | (ops, None) :: r -> go (run_call h s ops) r (res s ops :: acc)
-        | (ops, Some j) :: r ->
+        | (ADone a as x) :: r ->
+          go (run_acall h shuffle inplace ufirst !autosv m dc s x) r (show_res (api_res h m dc s a) :: acc)
+        | (ACrashed (_, _) as x) :: r ->
           (* results of the processes that were killed are not part of the observation *)
-          go (crash_call h s ops j) r [] in
-      Printf.printf "%s RES %s\n" id (String.concat " " (go init (hist @ [(fin, None)]) []))
+          go (run_acall h shuffle inplace ufirst !autosv m dc s x) r [] in
+      Printf.printf "%s RES %s\n" id (String.concat " " (go init (hist @ [ADone fin]) []))
     | [] -> ()
     | _ -> Printf.printf "BADLINE %s\n" l)
